@@ -21,20 +21,28 @@ from hypothesis import strategies as st
 from pv.core import Sub, MachineSub, HarnessError, call, check
 
 ASSUMPTIONS = [
-    'holidays are passed as datetime.datetime at midnight (the form of the class docstring, `.do(dt, "date")`); lists may be unsorted, hold '
-    'duplicates, weekend days and days outside [t0, t1]',
+    'holidays are datetime.datetime at midnight (the form of the class docstring, `.do(dt, "date")`), passed as a list, a tuple, dict keys, a bare '
+    'datetime (one holiday) or None (no holiday) - every container as_list() unpacks; they may be unsorted, hold duplicates, weekend days and days '
+    'outside [t0, t1]. A dict or a set of holidays raises TypeError in the constructor (its docstring asks for a list): not generated',
     't, t0, t1 are datetime.datetime at midnight ("every day t"): dates with a time of day or datetime.date objects are not generated',
     'add/bdays/inverse/2-step laws are demanded only where the whole reference walk (start adjust(t), |n| business days, and the walk back) '
-    'stays between the first and the last business day of [t0, t1]; outside it the statement defines no value',
+    'stays between the first and the last business day of [t0, t1] (these two days included: n is clipped so that the walk just fits); outside it '
+    'the statement defines no value',
     'is_bday/is_holiday/adjust are demanded for every day between the first and the last business day of the range (all_days) so that '
     'adjust never has to leave the range',
     'drange(t, u, "1b") is demanded for t <= u only (for t > u the statement does not say whether the answer is empty or descending)',
-    'the explicit adj= argument of add/bdays is treated as a second spelling of the configuration adj; dt_bump(t, "nb") is only a route into add',
+    'the explicit adj= argument of add/bdays/dt_bump is treated as a second spelling of the configuration adj; dt_bump(t, "nb") is only a route into add; '
+    'adj is spelt f/F/following, p/P/previous, m/M/modified/"modified following"/MF (what the constructor docstring and adjust() accept); '
+    'adjust([t1, t2, ..], adj) and adjust({k: t}, adj) are treated as the same function applied date by date',
+    'drange is called with the bump "1b" exactly as in the statement (with "1B" Calendar.drange falls through to the plain weekday drange and ignores '
+    'the holidays - reported as an observation, not checked)',
     'registry: the table path (add(+4), bdays) is compared only for registrations that passed a small explicit t0/t1 (the default 1900-2300 table costs seconds to build); registrations without t0/t1 are compared on is_bday/is_holiday/adjust/add(+-1); a re-registration that '
     'omits weekend= may keep the old weekend or fall back to the default [5, 6] - either is accepted, the holidays must be the new ones; '
     'calendar(<Calendar object>, holidays=h) is called with non-empty h only (the code spells "not given" as falsy); fetching a key that was never registered '
     'is modelled as registering a calendar without holidays and with the default weekend (what calendar(key) documents: "construct a new one")',
-    'weekend is one of [5,6], [4,5], [6], [] as in the quantifier (spelt as list, tuple, or a bare int for [6]); runs of holidays are 1-40 days, random density up to ~63% of all days',
+    'weekend is one of [5,6], [4,5], [6], [] as in the quantifier, spelt as list, tuple, reversed list, list with a repeated entry, list of numpy ints, '
+    'range, or a bare int for [6] (a set is wrapped by as_list into [set] and silently means "no weekend": not generated); runs of holidays are 1-40 days or '
+    'one whole calendar month +-3 days, random density up to ~63% of all days; ranges are 500-1095 days, one in ten 2400-3650 days',
 ]
 
 WEEKENDS = [[5, 6], [4, 5], [6], []]
@@ -446,11 +454,11 @@ def run_day_laws(spec):
         eff = _letter(a or cfg['adj'])
         got = call('adjust(list of %i dates, %r)' % (len(ts), a), cal.adjust, [_mk(t) for t in ts], a)
         check(isinstance(got, list) and len(got) == len(ts) and all(_is_dt(g, ref.adj(t, eff)) for g, t in zip(got, ts)),
-              '[%s] adjust(%s, %s) = %s; date by date the answer is %s', _cfg_txt(cfg), [_d(t) for t in ts], a, [_show(g) for g in got] if isinstance(got, list) else got,
+              '[' + _cfg_txt(cfg) + '] adjust(%s, %s) = %s; date by date the answer is %s', [_d(t) for t in ts], a, [_show(g) for g in got] if isinstance(got, list) else got,
               [_d(ref.adj(t, eff)) for t in ts])
         got = call('adjust(dict of %i dates, %r)' % (len(ts), a), cal.adjust, dict(('k%i' % j, _mk(t)) for j, t in enumerate(ts)), a)
         check(isinstance(got, dict) and sorted(got) == ['k%i' % j for j in range(len(ts))] and all(_is_dt(got['k%i' % j], ref.adj(t, eff)) for j, t in enumerate(ts)),
-              '[%s] adjust(dict of %s, %s) = %s; date by date the answer is %s', _cfg_txt(cfg), [_d(t) for t in ts], a, got, [_d(ref.adj(t, eff)) for t in ts])
+              '[' + _cfg_txt(cfg) + '] adjust(dict of %s, %s) = %s; date by date the answer is %s', [_d(t) for t in ts], a, got, [_d(ref.adj(t, eff)) for t in ts])
     return dict(nt=nt > 0, cls=_cfg_classes(cfg, ref) + sorted(flags))
 
 
@@ -614,6 +622,7 @@ class RegistryModel(object):
         'reregister_obj': dict(key=_key_s, hols=_hols1_s),                          # calendar(calendar(key), holidays=h)
         'reregister_only_hols': dict(key=_key_s, hols=st.one_of(st.just([]), _hols_s)),   # calendar(key, holidays=h): nothing else passed, h often []
         'reregister_no_range': dict(key=_key_s, hols=st.one_of(st.just([]), _hols_s), weekend=_wk_s),  # calendar(key, holidays=h, weekend=w): no t0/t1
+        'register_pair': dict(pair=st.integers(0, 3), hols=_hols_s, hols2=_hols_s, weekend=_wk_s),   # two keys with related names, one after the other
         'reregister_tweak': dict(key=_key_s, j=st.integers(0, 30), d=st.integers(0, 60)),  # same number of holidays, same first and last, one in the middle moved
         'fetch': dict(key=_key_s),                                                  # calendar(key)
         'populate': dict(key=_key_s, k=st.integers(0, RW - 1), n=st.integers(2, 6)),  # force the lookup tables of the registered object
@@ -654,7 +663,22 @@ class RegistryModel(object):
         call('calendar(%r, holidays, weekend=%s, t0, t1)' % (key, weekend), self.D.calendar, key, self._dts(hols), list(weekend), _mk(RT0), _mk(RT1))
         self.model[key] = dict(hols=set(R0 + i for i in hols), weekends=[list(weekend)], small=True)
 
+    PAIRS = [('US', 'us'), ('US', 'USD'), (None, 'None'), (None, '')]
+
+    def op_register_pair(self, pair, hols, hols2, weekend):
+        a, b = self.PAIRS[pair]
+        self.op_register(a, hols, weekend)
+        self.op_register(b, hols2, weekend)
+
+    def _known(self, key, salt):
+        # re-registration ops aim at a key that is already registered (six key names would otherwise rarely meet twice)
+        if key in self.model or not self.model:
+            return key
+        ks = sorted(self.model, key=repr)
+        return ks[salt % len(ks)]
+
     def op_reregister_hols(self, key, hols):
+        key = self._known(key, len(hols))
         self._note_rereg(key, hols)
         old = self.model.get(key)
         call('calendar(%r, holidays, t0=, t1=)' % key, lambda: self.D.calendar(key, self._dts(hols), t0=_mk(RT0), t1=_mk(RT1)))
@@ -671,6 +695,7 @@ class RegistryModel(object):
                 self.flags.add('reregistered_empty_over_nonempty')
 
     def op_reregister_only_hols(self, key, hols):
+        key = self._known(key, sum(hols))
         self._note_rereg(key, hols)
         self._note_empty(key, hols, None)
         old = self.model.get(key)
@@ -682,6 +707,7 @@ class RegistryModel(object):
         self.flags.add('range_omitted')
 
     def op_reregister_no_range(self, key, hols, weekend):
+        key = self._known(key, sum(hols) + len(weekend))
         self._note_rereg(key, hols)
         self._note_empty(key, hols, weekend)
         call('calendar(%r, holidays=%s, weekend=%s)' % (key, [_d(R0 + i) for i in hols], weekend), lambda: self.D.calendar(key, holidays=self._dts(hols), weekend=list(weekend)))
@@ -804,12 +830,14 @@ class RegistryModel(object):
 KNOWN = {}
 
 SUBS = [
-    Sub('day_laws', _day_case, run_day_laws, quick=800, thorough=8000,
+    Sub('day_laws', _day_case, run_day_laws, quick=640, thorough=8000,
         rule='calendar configuration (range 500-1095 days starting on any weekday 1996-2004, weekend in {Sat-Sun, Fri-Sat, Sun, none}, adj in {f,p,m}, '
              'holidays = 0-63% of days at random + 0-4 runs of 1-40 consecutive holidays placed at random / across a month end / around a weekend) x 1-40 points '
-             '(t in the interior so that 41 business days either side stay in range, biased to holidays and month ends; n in [-40,40] biased to |n|<=3; '
-             'adj override None/f/p/m). Oracle = day-by-day walk on ordinals: is_bday, is_holiday, adjust f/p/m/default, add, bdays(t, add(t,n)) == n, '
-             'add(add(t,n),-n) == t for business t, add(t,+-2) == add(add(t,+-1),+-1), dt_bump(t,"nb"). '
+             '(t mostly in the interior so that 41 business days either side stay in range, biased to holidays, month ends, month-long closures and the first/last '
+             'business days of the range with n clipped so that the walk just fits; n in [-40,40] biased to |n|<=3 and to 0, +-1, +-40; '
+             'adj override None or any spelling of f/p/m; holidays as list/tuple/dict keys/bare datetime/None; weekend as list/tuple/int/reversed/duplicated/numpy/range; '
+             'runs also across 31 Dec-1 Jan, over 29 Feb and over one whole calendar month). Oracle = day-by-day walk on ordinals: is_bday, is_holiday, adjust f/p/m/default, add, bdays(t, add(t,n)) == n, '
+             'add(add(t,n),-n) == t for business t, add(t,+-2) == add(add(t,+-1),+-1), dt_bump(t,"nb"[, adj]), adjust(list/dict of dates). '
              'non-trivial = some point has t non-business, or its walk crosses >= 2 consecutive holidays, or the modified-following month-end rule fires',
         floor=0.5, class_floors={'pt_month_end_rule': 0.1, 'pt_crosses_run>=2': 0.2, 'pt_holiday_weekday': 0.3, 'run_straddles_month_end': 0.1,
                                  'weekend=none': 0.1, 'weekend=6': 0.1, 'weekend=4,5': 0.1, 'adj=p': 0.15, 'adj=f': 0.15, 'adj=m': 0.15,
@@ -820,30 +848,31 @@ SUBS = [
                                  'weekend_as=rev': 0.02, 'weekend_as=dup': 0.02, 'weekend_as=np': 0.02, 'weekend_as=range': 0.02, 'weekend_as=int': 0.01,
                                  'holidays_as=keys': 0.05, 'holidays_as=auto': 0.05, 'holidays_as=tuple': 0.05,
                                  'adj_spelled_long_or_upper': 0.3, 'pt_adj_override_spelled_long_or_upper': 0.4}),
-    Sub('drange_1b', _drange_case, run_drange, quick=1200, thorough=8000,
+    Sub('drange_1b', _drange_case, run_drange, quick=1000, thorough=8000,
         rule='configuration as in day_laws (range 120-500 days) x 1-25 pairs t <= u between the first and last business day, spans 0-12 / 0-90 / anything, '
-             'endpoints biased to holidays. Oracle: the list of business days d with adjust(t) <= d <= adjust(u), found by visiting every day, compared as a list '
+             'endpoints biased to holidays and to the first / last business day of the range, t == u included. Oracle: the list of business days d with adjust(t) <= d <= adjust(u), found by visiting every day, compared as a list '
              '(order, nothing missing, nothing extra). non-trivial = an endpoint is not a business day or a weekday holiday lies inside',
         floor=0.5, class_floors={'endpoint_nonbday': 0.3, 'holiday_inside': 0.3, 'single_day': 0.05, 'same_day_nonbday': 0.2, 'result>=100_days': 0.15,
                                  'starts_at_first_bday_of_range': 0.3, 'ends_at_last_bday_of_range': 0.3, 'span_inside_one_closure': 0.1,
                                  'weekend_as=rev': 0.02, 'holidays_as=keys': 0.05}),
-    Sub('all_days', _all_case, run_all_days, quick=16, thorough=100,
+    Sub('all_days', _all_case, run_all_days, quick=12, thorough=100,
         rule='one configuration, completely enumerated: every day between the first and last business day of the range (quick: range 90-200 days; thorough: 365-800 days) '
              'for is_bday/is_holiday/adjust f,p,m/drange(t, t+9), and every n in [-40,40] whose walk stays in range for add, bdays, inverse; 2-step law. '
              'non-trivial = the configuration has holidays and non-business days',
         floor=0.25),
-    MachineSub('registry', RegistryModel, quick=(800, 12), thorough=(1500, 20),
+    MachineSub('registry', RegistryModel, quick=(600, 12), thorough=(1500, 20),
                rule='histories of register(key, holidays, weekend, t0, t1) / re-register with holidays + range / re-register with ONLY holidays=h (often []) / re-register with holidays=h, weekend=w and no range (h and w often []) / register a Calendar object / re-register through the object / '
-                    'fetch(key) / populate tables, 3 keys, holidays in a 70-day window; after every step every key known to the model is fetched and is_bday over the window, '
+                    'fetch(key) / populate tables / register two keys with related names / re-register with the same number of holidays and the same first and last one; '
+                    '6 keys (US, USD, us, None, "None", ""), holidays in a 70-day window; after every step every key known to the model is fetched and is_bday over the window, '
                     'is_holiday, adjust, add(+1) and - for small ranges - the table path add(+4) and bdays are compared with the LAST registration. '
                     'non-trivial = a key was re-registered with different holidays and fetched afterwards; registry cleared at the start of every history',
-               floor=0.3, class_floors={'reregistered_after_tables_built': 0.1, 'object_route': 0.2, 'reregistered_empty_over_nonempty': 0.15,
-                                        'case_variant_keys_differ': 0.15, 'prefix_keys_differ': 0.15, 'None_and_str_None_differ': 0.15,
-                                        'None_and_empty_string_differ': 0.15, 'reregistered_same_count_first_last': 0.15,
-                                        'registered_with_only_empty_arguments': 0.25}),
+               floor=0.3, class_floors={'reregistered_after_tables_built': 0.1, 'object_route': 0.2, 'reregistered_empty_over_nonempty': 0.1,
+                                        'case_variant_keys_differ': 0.1, 'prefix_keys_differ': 0.1, 'None_and_str_None_differ': 0.1,
+                                        'None_and_empty_string_differ': 0.1, 'reregistered_same_count_first_last': 0.15,
+                                        'registered_with_only_empty_arguments': 0.15}),
 ]
 
 # quick tier: the runner splits day_laws and drange_1b (quick >= 800) over 4 processes; all_days (few, expensive cases) likewise
 for _s in SUBS:
-    if _s.name == 'all_days':
+    if _s.name in ('day_laws', 'drange_1b', 'all_days'):
         _s.qshards = 4
